@@ -436,6 +436,8 @@ def chart_specs(draw, max_segments: int = 8, max_tracks: int = 2, max_notes: int
             us = draw(st.integers(0, anchor_max))
         else:
             us = max(0, int(tm.exact_us(t)) + draw(st.sampled_from([0, 1, -1, 7, -7, 500, -500, 999, -999, 1001, 10 ** 4])))
+            if us > anchor_max:          # the caller bounds literal values (C18: at most 8 digits)
+                us = draw(st.integers(0, anchor_max))
         sync.append([t, "A", us])
     order = {"TS": 0, "B": 1, "A": 2}
     sync.sort(key=lambda it: (it[0], order[it[1]]))
